@@ -49,6 +49,17 @@ elab "msplit1" : tactic => withMainContext do
   else
     evalTactic (← `(tactic| (generalize hsplit : $dstx = xsplit at *; cases xsplit <;> try simp only [])))
 
+/-- for every hypothesis `h : l₁ = l₂` between lists, add `congrArg List.length h` -/
+elab "list_len_facts" : tactic => withMainContext do
+  let lctx ← getLCtx
+  for d in lctx do
+    if d.isImplementationDetail then continue
+    let t ← instantiateMVars d.type
+    if let some (ty, _, _) := t.eq? then
+      if (← whnfR ty).isAppOf ``List then
+        let hstx ← Term.exprToSyntax d.toExpr
+        evalTactic (← `(tactic| have := congrArg List.length $hstx))
+
 end SF.GenEq
 
 theorem head?_match {α : Type} (l : List α) : l.head? = (match l with | [] => none | x :: _ => some x) := by
@@ -60,7 +71,7 @@ macro "munfold" : tactic => `(tactic| simp only [bind, Except.bind, Except.map, 
 
 macro "splitall" : tactic => `(tactic| repeat (any_goals msplit1))
 
-macro "gen_fin" : tactic => `(tactic| first | rfl | (with_unfolding_all rfl) | (intro h; cases h; first | done | rfl | (simp; done)) | (simp_all; done) | omega | (exfalso; omega) | (simp_all [List.head?_eq_getElem?]; done) | (intros; simp_all; done))
+macro "gen_fin" : tactic => `(tactic| first | rfl | (with_unfolding_all rfl) | (intro h; cases h; first | done | rfl | (simp; done)) | (simp_all; done) | omega | (exfalso; omega) | (list_len_facts; (try simp only [List.length_append, List.length_cons, List.length_nil, List.length_tail] at *); first | omega | (exfalso; omega) | (simp_all; done)) | (simp_all [List.head?_eq_getElem?]; done) | (intros; simp_all; done) | (intro h; injection h with h; subst h; (try simp only []); (try list_len_facts); (try simp only [List.length_append, List.length_cons, List.length_nil, List.length_tail] at *); (repeat' constructor) <;> (first | rfl | omega | (simp_all; done))))
 
 /-- close a tie obligation: unfold the plumbing, split every innermost scrutinee, finish by simplification -/
 macro "gen_tie" : tactic => `(tactic| ((try munfold); (try splitall); all_goals gen_fin))
